@@ -129,7 +129,7 @@ def frame_lengths(M):
     out = []
     for k in (18, 20, 22):
         B = max(1, 2 ** k // M)
-        out += [B + 3] + ([2 * B + B // 4 + 1] if k < 22 or M >= 256 else []) + ([3 * B - 1] if k == 20 else [])
+        out += [B + 3] + ([2 * B + B // 4 + 1] if k == 20 or (k == 22 and M >= 256) else []) + ([3 * B - 1] if k == 20 and M >= 16 else [])
     return sorted(set(x for x in out if x >= 64))
 
 
